@@ -196,7 +196,7 @@ Qed.
 Theorem deliver_sub_owner_inv s t : trig_purchase_uncommitted s (t_op t) = false ->
   sub_owner_inv s -> sub_owner_inv (deliver s t).1.
 Proof.
-  intros Ht Hinv. unfold deliver.
+  intros Ht Hinv. unfold deliver. destruct (negb (validate t)); [done|].
   destruct (run_op (t_env t) s (t_op t)) as [s1|] eqn:Hop; [|done].
   destruct (fee_step s1 t) as [s2|] eqn:Hf; [|done]. simpl.
   apply fee_step_spec in Hf as (f & _ & Hr & _). unfold sub_owner_inv. rewrite Hr.
